@@ -66,6 +66,21 @@ def tasks(tier, seed):
                 unk = [S for S in F.extras(3) if S not in K]
                 for a in unk:
                     add("env", 3, K, comp, gap=gap, action=F.extras(3).index(a))
+    # out-of-order undo: step(a), step(b), unstep(a) must equal an environment that only did step(b)
+    rnd2 = random.Random(f"c08env2/{seed}")
+    for comp in ["superadditive", "superadditive_cached", "sam_apx_1"]:
+        for K in fam3:
+            unk = [S for S in F.extras(3) if S not in K]
+            for a in unk:
+                for b in unk:
+                    if a != b:
+                        add("env2", 3, K, comp, gap=rnd2.choice(["exploitability", "l1_norm", "linf_norm"]),
+                            action=F.extras(3).index(a), action2=F.extras(3).index(b))
+    for K in F.sample([k for k in fam4 if len(k) < 9], 128 if tier == "thorough" else 24, seed, "c08env24"):
+        unk = [S for S in F.extras(4) if S not in K]
+        a, b = rnd2.sample(unk, 2)
+        add("env2", 4, K, rnd2.choice(["superadditive_cached", "superadditive"]), gap=rnd2.choice(["exploitability", "l1_norm"]),
+            action=F.extras(4).index(a), action2=F.extras(4).index(b))
     rnd = random.Random(f"c08env/{seed}")
     for K in F.sample([k for k in fam4 if len(k) < 10], 256 if tier == "thorough" else 24, seed, "c08env4"):
         unk = [S for S in F.extras(4) if S not in K]
@@ -185,6 +200,19 @@ def scenario(pk, params, inp):
     def snap():
         return {"table": _read(pk, env.incomplete_game, n), "state": list(env.state), "reward": env.reward,
                 "mask": [bool(x) for x in env.action_masks()], "steps": int(env.steps_taken), "done": bool(env.done)}
+    if params["kind"] == "env2":
+        env.step(params["action"])
+        env.step(params["action2"])
+        env.unstep(params["action"])
+        got = snap()
+        game2 = pk.game.IncompleteCooperativeGame(n, comp)
+        env = pk.icg_gym.ICG_Gym(game2, lambda: full.copy(), [C(S) for S in F.minimal(n)], gap)
+        for S in params["K"]:
+            env.step(ex.index(S))
+        env.step(params["action2"])
+        want = snap()
+        want["steps"] = got["steps"]          # step counters legitimately differ by construction
+        return {"before": want, "mid": {"known_count": len(F.minimal(n)) + len(params["K"]) + 1}, "after": got}
     before = snap()
     env.step(params["action"])
     mid = {"known_count": int(sum(env.incomplete_game.are_values_known()))}
@@ -217,7 +245,8 @@ def claims(params, inp, out, lg):
     cl.append(("undo-reward", lg.eq(b["reward"], a["reward"])))
     cl.append(("undo-mask", b["mask"] == a["mask"]))
     cl.append(("undo-steps", b["steps"] == a["steps"]))
-    cl.append(("undo-done", b["done"] == a["done"]))
+    if params["kind"] == "env":
+        cl.append(("undo-done", b["done"] == a["done"]))
     cl.append(("step-revealed-one", out["mid"]["known_count"] == len(F.minimal(n)) + len(params["K"]) + 1))
     return cl
 
